@@ -154,6 +154,15 @@ package leader
 //@   on call KeyValue.Delete assert C03+C06+C09+C11+C13.store_calls_outside_the_mutex: nheld(kvElection.mu) == 0
 //@   on call KeyValue.Watch assert C03+C06+C09+C11+C13.store_calls_outside_the_mutex: nheld(kvElection.mu) == 0
 //@   on call RevisionDeleter.DeleteRevision assert C03+C06+C09+C11+C13.store_calls_outside_the_mutex: nheld(kvElection.mu) == 0
+// The label set of each metric is fixed by its vector (metrics.go): an extra label panics in the Prometheus client.
+//@   on call Metrics.SetIsLeader as c assert C13+C18.metric_labels_are_the_declared_ones: keysWithin(c.labels, "role", "instance_id", "bucket")
+//@   on call Metrics.SetConnectionStatus as c assert C13+C18.metric_labels_are_the_declared_ones: keysWithin(c.labels, "role", "instance_id", "bucket")
+//@   on call Metrics.IncTokenValidationFailures as c assert C13+C18.metric_labels_are_the_declared_ones: keysWithin(c.labels, "role", "instance_id", "bucket")
+//@   on call Metrics.ObserveLeaderDuration as c assert C13+C18.metric_labels_are_the_declared_ones: keysWithin(c.labels, "role", "instance_id", "bucket")
+//@   on call Metrics.IncTransitions as c assert C13+C18.metric_labels_are_the_declared_ones: keysWithin(c.labels, "role", "instance_id", "bucket", "from_state", "to_state")
+//@   on call Metrics.IncFailures as c assert C13+C18.metric_labels_are_the_declared_ones: keysWithin(c.labels, "role", "instance_id", "bucket", "error_type")
+//@   on call Metrics.IncAcquireAttempts as c assert C13+C18.metric_labels_are_the_declared_ones: keysWithin(c.labels, "role", "instance_id", "bucket", "status")
+//@   on call Metrics.ObserveHeartbeatDuration as c assert C13+C18.metric_labels_are_the_declared_ones: keysWithin(c.labels, "role", "instance_id", "bucket", "status")
 //@   on call wg.Add assert C20+C09.wait_group_grows_under_the_mutex_or_on_a_tracked_goroutine: (nheld(kvElection.mu) >= 1 && e.stopsWaiting == 0) || caller.onTrackedGoroutine
 //@   on call kvElection.onDemote assert C08+C09+C11+C13+C03+C06+C04+C12.callbacks_run_outside_the_mutex: nheld(kvElection.mu) == 0
 //@   on call kvElection.onPromote assert C08+C09+C13+C03+C06.callbacks_run_outside_the_mutex: nheld(kvElection.mu) == 0
@@ -295,7 +304,7 @@ package leader
 //@   flag pure
 
 //@ func (e *kvElection) getMetricsLabels()
-//@   flag pure
+//@   flag inline
 
 //@ func (e *kvElection) recordTransition(fromState, toState)
 //@   tags C18
@@ -561,6 +570,9 @@ package leader
 //@   on load kvElection.ctx assert C19+C09.election_ctx_read_under_lock: held(e.mu) >= 1
 //@   on call onPromote as c assert C19.derived_from_election_ctx: origin(c.arg0, "ctx:derived") && origin(ctxof(c.arg0), "ctx:derived") && origin(ctxof(ctxof(c.arg0)), "field:kvElection.ctx")
 //@   on call ctxcancel assert C19.not_cancelled_early: calls(onPromote) == 1
+//@   ghost termCtxG Int = 0
+//@   on call context.WithCancel as w when !inspawn() set termCtxG = w.result0
+//@   on call ctxcancel as c assert C19+C02+C03+C07.a_promotion_cancels_only_its_own_context: c.ctx != termCtxG
 //@   on call onPromote assert C08.promote_once_per_activation: calls(onPromote) == 1
 //@   ghost tcFn Int = 0
 //@   on store kvElection.termCancel as s set tcFn = s.value
@@ -622,7 +634,7 @@ package leader
 //@   ghost demoteNilSeen Bool = false
 //@   ghost watchFlagCleared Bool = false
 //@   on store kvElection.watcherRunning as s when !s.value set watchFlagCleared = true
-//@   on return assert C06+C09.stop_frees_the_watch_slot: !ctxNilL ==> watchFlagCleared
+//@   on return assert C06+C09+C18.stop_frees_the_watch_slot: !ctxNilL ==> watchFlagCleared
 //@   ghost firstLock Bool = true
 //@   on lock kvElection.mu when firstLock set wasLeaderL = e.isLeader
 //@   on lock kvElection.mu when firstLock set ctxNilL = e.ctx == nil
@@ -657,7 +669,7 @@ package leader
 //@   ghost demoteNilSeen Bool = false
 //@   ghost watchFlagCleared Bool = false
 //@   on store kvElection.watcherRunning as s when !s.value set watchFlagCleared = true
-//@   on return assert C06+C09.stop_frees_the_watch_slot: !ctxNilL ==> watchFlagCleared
+//@   on return assert C06+C09+C18.stop_frees_the_watch_slot: !ctxNilL ==> watchFlagCleared
 //@   ghost firstLock Bool = true
 //@   on lock kvElection.mu when firstLock set wasLeaderL = e.isLeader
 //@   on lock kvElection.mu when firstLock set ctxNilL = e.ctx == nil
@@ -1221,6 +1233,7 @@ package leader
 //@   on store natsConnectionMonitor.status as s assert C11.closed_marks_closed: s.value == 3
 //@   on store natsConnectionMonitor.status set stored = true
 //@   ensures C11.closed_recorded: stored
+//@   ensures C11.a_closed_connection_does_not_restart_the_grace_period: calls(disconnectHandler) == 0 && calls(reconnectHandler) == 0
 
 // ===========================================================================
 // election.go adapters  (C14)
